@@ -378,8 +378,9 @@ def _match(exp, got, path, out):
             return
         return _match(exp[1], got[1], path + '/' + k, out)
     if k == 'tuple':
-        if got[0] != 'tuple' or len(got[1]) != len(exp[1]):
-            out.append((path, f'expected tuple of {len(exp[1])}, got {got[0]} {len(got[1]) if len(got) > 1 else ""}'))
+        if got[0] != 'tuple' or not isinstance(got[1], (list, tuple)) or len(got[1]) != len(exp[1]):
+            n_got = len(got[1]) if len(got) > 1 and isinstance(got[1], (list, tuple)) else ''
+            out.append((path, f'expected tuple of {len(exp[1])}, got {got[0]} {n_got}'))
             return
         for i, (e, g) in enumerate(zip(exp[1], got[1])):
             _match(e, g, f'{path}/{i}', out)
